@@ -19,6 +19,9 @@ import (
 	"github.com/gardenbed/emerge/internal/vh/rec"
 )
 
+// ruleMore describes what was added to the exploration in the build phase.
+const ruleMore = "; token pool covers every UTF-8 length class with the first and last lead byte of each; single lexemes of up to 4080 bytes"
+
 func TestMain(m *testing.M) {
 	rec.Init("C19")
 	_ = flag.Set("rapid.shrinktime", "20s") // every shrink attempt compiles a batch
@@ -418,7 +421,7 @@ func runBatch(ps []*prepared, cases []caseT) (failed *caseT, err error) {
 }
 
 func TestBatches(t *testing.T) {
-	rec.Rule(rule)
+	rec.Rule(rule + ruleMore)
 	rec.Assume("token definitions that match the empty string are not generated (no token stream is defined for them); a lexeme (token, skipped token or comment) is shorter than one buffer half (4096 bytes), the documented limit of the two-buffer scheme; the NUL byte is the reader's sentinel and is not generated")
 	rec.Check(t, 3, 96, func(t *rapid.T) {
 		var ps []*prepared
@@ -461,7 +464,7 @@ func TestBatches(t *testing.T) {
 // boundary sweep: one lexer, one text, every length around the buffer-half boundaries
 func TestBoundarySweep(t *testing.T) {
 	rec.Begin(t)
-	rec.Rule(rule)
+	rec.Rule(rule + ruleMore)
 	if rec.Shard() != 0 {
 		t.Skip("seed independent: shard 0 only")
 	}
